@@ -41,6 +41,8 @@ struct WorldSpec {
     /// (name, target name)
     symrefs: Vec<(String, String)>,
     below: bool,
+    /// a short name that exists under two DWIM namespaces (always queried)
+    twin_short: Option<String>,
 }
 
 fn conflicts(names: &[String], n: &str) -> bool {
@@ -118,6 +120,33 @@ fn gen_world(t: &mut Tape) -> WorldSpec {
             stale,
         });
     }
+    // ambiguity across the DWIM namespaces: the same short name under two of refs/{tags,heads,remotes}
+    let mut twin_short: Option<String> = None;
+    if !refs.is_empty() && t.chance(110) {
+        let src = refs[t.below(refs.len())].clone();
+        let rest = src.name.splitn(3, '/').nth(2).unwrap_or("").to_string();
+        let from = src.name.splitn(3, '/').nth(1).unwrap_or("").to_string();
+        let to = *t.pick(&["tags", "heads", "remotes"]);
+        let name = format!("refs/{to}/{rest}");
+        if !rest.is_empty()
+            && to != from
+            && gix_validate::reference::name(name.as_bytes().as_bstr()).is_ok()
+            && !conflicts(&names, &name)
+            && !name.ends_with("/HEAD")
+        {
+            let pool = if name.starts_with("refs/heads/") { 4 } else { 6 };
+            let value = (src.value + 1 + t.below(pool - 1)) % pool;
+            let value = if value == src.value % pool { (value + 1) % pool } else { value };
+            names.push(name.clone());
+            refs.push(RefSpec {
+                name,
+                place: *t.pick(&[Place::Loose, Place::Packed, Place::Both]),
+                value,
+                stale: (value + 1) % pool,
+            });
+            twin_short = Some(rest);
+        }
+    }
     // symbolic refs (always loose), never dangling
     let mut symrefs: Vec<(String, String)> = Vec::new();
     let nsym = t.weighted(&[3, 3, 2, 1]);
@@ -141,7 +170,12 @@ fn gen_world(t: &mut Tape) -> WorldSpec {
         }
         symrefs.push((name, target));
     }
-    WorldSpec { refs, symrefs, below }
+    WorldSpec {
+        refs,
+        symrefs,
+        below,
+        twin_short,
+    }
 }
 
 /// component-wise comparison = order of a sorted directory walk
@@ -285,10 +319,10 @@ fn compare_iteration(
 
 pub fn main() {
     let mut ck = Check::new("C18", "exploration");
-    ck.rule("Worlds of 1..40 refs under refs/{heads,tags,remotes/o,notes,x,x-} with 1..3 components from {a,a-,a.b,a0,ab,-,0,x,b,a-b,a+,HEAD} (half of the worlds) or from {a,b,ab,a0,0,x,z,A,a_} (no byte below '/'), derived from each other (directory sibling with a suffix byte below/above '/', child, sibling); each ref loose, packed, or packed-stale + loose-current; values from 4 commits and 2 annotated tags (peeled lines); 0..3 symbolic refs incl. refs/remotes/o/HEAD (never dangling). Written by git fast-import (objects) + update-ref --stdin + pack-refs --all + update-ref --stdin. Queries: all(), 3 prefixes (category directories and parents of refs, with and without trailing '/', one absent), try_find of every name and of absent neighbours, up to 3 short names. Non-trivial: some directory X/ has a sibling X<byte below '/'>.. and some ref is both packed and loose. Distinct by world spec.");
+    ck.rule("Worlds of 1..40 refs under refs/{heads,tags,remotes/o,notes,x,x-} with 1..3 components from {a,a-,a.b,a0,ab,-,0,x,b,a-b,a+,HEAD} (half of the worlds) or from {a,b,ab,a0,0,x,z,A,a_} (no byte below '/'), derived from each other (directory sibling with a suffix byte below/above '/', child, sibling); each ref loose, packed, or packed-stale + loose-current; values from 4 commits and 2 annotated tags (peeled lines); 0..3 symbolic refs incl. refs/remotes/o/HEAD (never dangling). Written by git fast-import (objects) + update-ref --stdin + pack-refs --all + update-ref --stdin. Queries: all(), 3 prefixes (category directories and parents of refs, with and without trailing '/', one absent), try_find of every name and of absent neighbours, up to 3 short names plus, in ~40 % of worlds, a short name planted under two of refs/{tags,heads,remotes} with different values. Non-trivial: some directory X/ has a sibling X<byte below '/'>.. and some ref is both packed and loose. Distinct by world spec.");
     ck.assume(&format!("oracle: {} for-each-ref (default refname order) and rev-parse --symbolic-full-name", Git::version()));
     ck.assume("prefixes are whole path components (a directory name with or without trailing '/'): for those git's pattern rule (match up to a '/') and gitoxide's documented rule ('refs/heads' is equivalent to 'refs/heads/') coincide; partial-component prefixes are not compared");
-    ck.assume("dangling symbolic refs are not generated (git for-each-ref omits them with a warning); for a short name that resolves to a symbolic ref git prints the final target, gitoxide returns the symbolic ref itself: the chain is followed in the harness");
+    ck.assume("dangling symbolic refs are not generated (git for-each-ref omits them with a warning); for a short name that resolves to a symbolic ref git prints the final target, gitoxide returns the symbolic ref itself: the chain is followed in the harness; for a short name that is ambiguous across namespaces git 2.39 prints no symbolic name (only a warning), so the object id of `git rev-parse --verify` is compared instead");
 
     ck.sub("world", SubCfg::new(400, 8_000).max_len(700).max_shrink(50), |t, c| {
         let spec = gen_world(t);
@@ -320,6 +354,7 @@ pub fn main() {
         c.label_if(has_both, "stale-packed-shadowed");
         c.label_if(!spec.symrefs.is_empty(), "symrefs");
         c.label_if(probe_below_file, "lookups-below-ref-file");
+        c.label_if(spec.twin_short.is_some(), "short-name-in-two-namespaces");
         c.label(match spec.refs.len() {
             0..=3 => "refs-1..3",
             4..=8 => "refs-4..8",
@@ -620,10 +655,15 @@ pub fn main() {
             name
         };
         let mut asked: Vec<String> = Vec::new();
-        for (pick, how) in &short_picks {
+        let planted: Vec<Option<String>> = spec.twin_short.iter().cloned().map(Some).collect();
+        for (forced, (pick, how)) in planted
+            .into_iter()
+            .chain(std::iter::repeat(None))
+            .zip(short_picks.iter().chain(std::iter::once(&(0usize, 0usize))))
+        {
             let l = &want_all[*pick % want_all.len()];
             let rest = &l.name[5..]; // after refs/
-            let short = match how {
+            let short = if let Some(f) = forced { f } else { match how {
                 0 => rest.to_string(),
                 1 => rest.splitn(2, '/').nth(1).unwrap_or(rest).to_string(),
                 2 => l.name.rsplit('/').next().unwrap_or(rest).to_string(),
@@ -632,7 +672,7 @@ pub fn main() {
                     let s = rest.splitn(2, '/').nth(1).unwrap_or(rest);
                     s.strip_suffix("/HEAD").unwrap_or(s).to_string()
                 }
-            };
+            } };
             if short.is_empty()
                 || short.starts_with('-') // an option to rev-parse
                 || asked.contains(&short)
@@ -651,6 +691,28 @@ pub fn main() {
             let err = String::from_utf8_lossy(&err).to_string();
             let want: Option<String> = if ok {
                 let s = String::from_utf8_lossy(&out).trim().to_string();
+                if s.is_empty() && err.contains("is ambiguous") {
+                    // git 2.39 refuses to print a symbolic name for an ambiguous short name, but it does resolve
+                    // it (first matching DWIM rule wins): compare the object the name resolves to
+                    c.label("short-query");
+                    c.label("short-query-ambiguous");
+                    let id = infra!(c, git.run_str(["rev-parse", "--verify", "-q", short.as_str()]), "rev-parse --verify");
+                    match store.try_find(short.as_str()) {
+                        Ok(Some(r)) => {
+                            let final_name = resolve(r.name.as_bstr().to_string());
+                            let got = by_name.get(final_name.as_str()).map(|l| l.oid.clone());
+                            if got.as_deref() != Some(id.trim()) {
+                                failures.push((
+                                    "find-short-ambiguous-other-rule".into(),
+                                    format!("try_find({short:?}) = {:?} (value {got:?}); git resolves the ambiguous name to {}", render(&r), id.trim()),
+                                ));
+                            }
+                        }
+                        Ok(None) => failures.push(("find-short-missing".into(), format!("try_find({short:?}) = None, git resolves it to {}", id.trim()))),
+                        Err(e) => failures.push(("find-short-error".into(), format!("try_find({short:?}) failed: {e}"))),
+                    }
+                    continue;
+                }
                 if s.is_empty() {
                     // resolved as something that is not a ref (e.g. an abbreviated object id): not our subject
                     continue;
@@ -663,7 +725,6 @@ pub fn main() {
                 return;
             };
             c.label("short-query");
-            c.label_if(err.contains("is ambiguous"), "short-query-ambiguous");
             c.label_if(want.is_none(), "short-query-unresolved");
             match (store.try_find(short.as_str()), want) {
                 (Ok(None), None) => {}
